@@ -105,7 +105,8 @@ def job_split(cfg):
         fn.__defaults__ = tuple(R2 if isinstance(d, float) and abs(d - 2 ** 0.5) < 1e-15 else d for d in fn.__defaults__)
     facade.USED_STUBS.add("Kelvin-Mandel constant sqrt(2) = exact algebraic number r > 0, r^2 = 2 (np.sqrt(2) and the import-time default arguments of Project_vector_to_matrix / Project_matrix_to_vector)")
     epsA = [exx, eyy, exy * R2]
-    epsB = [as_sym(Fraction(x)) for x in B_STATES[bname][:2]] + [R2 * Fraction(B_STATES[bname][2])]
+    # the concrete second Gauss point carries plain rational numbers (its shear component with the float value of sqrt(2)): no auxiliary enters through it
+    epsB = [as_sym(Fraction(x)) for x in B_STATES[bname][:2]] + [as_sym(Fraction(float(np.sqrt(2))) * Fraction(B_STATES[bname][2]))]
     stress_based = split in ("Stress", "Zhang") or "Stress" in split
 
     def strain_array():
